@@ -209,6 +209,36 @@ def gen_groups(seed: int, n_projects: int, n_special: int, n_inv: int) -> list[d
     return groups
 
 
+def gen_matrix(seed: int, n_projects: int) -> list[dict]:
+    """in-process matrix: every special parent name x every command, absolute spelling plus one rotating other spelling"""
+    specials = special_parents()
+    others = [("grand", "rel", "dir"), ("proj", "dot", "dir"), ("parent", "rel", "dir"), ("other", "abs", "dir"), ("grand", "rel", "files"),
+              ("other", "rel", "dir")]
+    groups = []
+    for i in range(n_projects):
+        r = rng_for(seed, PROP, "matrix", i)
+        project = gen_project(r)
+        have = {f["tpl"] for f in project["files"]}
+        for lang in ("py", "ts", "rs"):   # every command must have something to find
+            if lang not in have:
+                project["files"].append({"rel": [r.choice(NEUTRAL_DIRS), "extra_" + lang + EXT[lang]], "tpl": lang})
+        names = [r.choice(NEUTRAL_PARENTS)] + specials
+        for li, nm in enumerate(names):
+            invs = []
+            for ci, cmd in enumerate(CMDS):
+                invs.append({"cwd": "home", "spelling": "abs", "target": "dir", "cmd": cmd})
+                cwd, spelling, target = others[(i + li + ci) % len(others)]
+                inv = {"cwd": cwd, "spelling": spelling, "target": target, "cmd": cmd}
+                if target == "files":
+                    inv["pick"] = list(range(len(project["files"])))
+                if cwd == "other":
+                    inv["cwd_pats"] = r.sample(CWD_PATS, r.choice([0, 1, 1]))
+                invs.append(inv)
+            parents = [nm] if r.random() < 0.7 else [nm, r.choice(NEUTRAL_PARENTS)]
+            groups.append({"id": f"m{i}.{li}", "via": "api", "project": project, "loc": {"parents": parents, "name": "proj"}, "invs": invs})
+    return groups
+
+
 # ------------------------------------------------------------------ materialise + run
 def _write(root: Path, project: dict, force_git: bool = False):
     for f in project["files"]:
@@ -251,8 +281,33 @@ def chain_of(start: Path, markers) -> list[tuple[str, list[str]]]:
     return out
 
 
+def _api_invoke(cmd: str, targets: list[str], cwd: Path):
+    """what the CLI command does after click: detect the root from the first target, build the orchestrator, lint the targets as typed,
+    keep the command's rule family.  In-process (forked worker, chdir) - used for the full name x command matrix; the CLI runs stay
+    the authority for the glue."""
+    from harness.common import drain_failures, install_failure_tap
+    install_failure_tap()
+    drain_failures()
+    old = os.getcwd()
+    try:
+        from src.cli.utils import execute_linting_on_paths, setup_base_orchestrator
+        from src.linter_config.ignore import clear_ignore_parser_cache
+        os.chdir(cwd)
+        clear_ignore_parser_cache()  # a fresh process has no cached parser
+        path_objs = [Path(t) for t in targets]
+        orch = setup_base_orchestrator(path_objs, None, False, None)
+        found = execute_linting_on_paths(orch, path_objs, True, False)
+    except BaseException as e:  # noqa: BLE001
+        return 2, None, "", f"{type(e).__name__}: {e}", []
+    finally:
+        os.chdir(old)
+    fam = RULE_ID[cmd].split(".")[0]
+    vs = [{"rule_id": v.rule_id, "file_path": str(v.file_path), "line": v.line} for v in found if str(v.rule_id).startswith(fam)]
+    return (1 if vs else 0), vs, "", "", [json.dumps(f) for f in drain_failures()[:5]]
+
+
 def run_group(group: dict) -> list[dict]:
-    """build the project at its location, run every invocation through the CLI; returns one record per invocation"""
+    """build the project at its location, run every invocation (real CLI, or in-process for via=api); one record per invocation"""
     markers = root_marker_names()
     res = []
     with scratch_dir("tv-c09-") as d:
@@ -290,10 +345,20 @@ def run_group(group: dict) -> list[dict]:
             else:
                 targets = [spell(given(f["rel"])) for f in files]
                 start = P.joinpath(*files[0]["rel"]).parent
-            rc, so, se = run_cli([inv["cmd"], "--format", "json", *targets], cwd=cwd, home=home)
-            vs = parse_json_violations(so)
+            if group.get("via") == "api":
+                rc, vs, so, se, swallowed = _api_invoke(inv["cmd"], targets, cwd)
+            else:
+                faillog = S / "faillog.jsonl"
+                if faillog.exists():
+                    faillog.unlink()
+                args = [inv["cmd"], "--format", "json", *targets]
+                rc, so, se = run_cli(args, cwd=cwd, home=home, env_extra={"THAILINT_VERIF_FAILLOG": str(faillog)})
+                if rc == 124:  # timed out on a busy machine: one patient retry before calling it a failure
+                    rc, so, se = run_cli(args, cwd=cwd, home=home, timeout=600, env_extra={"THAILINT_VERIF_FAILLOG": str(faillog)})
+                vs = parse_json_violations(so)
+                swallowed = faillog.read_text().splitlines()[:5] if faillog.exists() else []
             rec = {"targets": targets, "cwd": str(cwd), "cwd_parts": list(cwd.parts[1:]), "chain": chain_of(start, markers),
-                   "proj_depth": len(absP), "files": [], "unknown": [], "error": None}
+                   "proj_depth": len(absP), "files": [], "unknown": [], "error": None, "swallowed": swallowed}
             if vs is None or rc not in (0, 1):
                 rec["error"] = f"rc={rc} stdout={so[:200]!r} stderr={se[-400:]!r}"
                 vs = []
@@ -470,7 +535,9 @@ def run(tier: str, seed: int, replay: str | None = None) -> int:
                 "per-linter ignore lists, repo-level ignore patterns in .thailintignore / .thailint.yaml) copied under parents named after every "
                 "built-in excluded directory, every test-marker substring and neutral names; the real CLI (--format json) is invoked for each of 10 "
                 "linter commands with absolute / relative / dot spellings of directory and file targets from five kinds of working directory "
-                "(project, parent, grandparent, unrelated directory with its own .thailintignore, neutral). A case (= one invocation) is "
+                "(project, parent, grandparent, unrelated directory with its own .thailintignore, neutral). The full "
+                "matrix of every special parent name x every command is additionally run in-process through the same functions the CLI commands call "
+                "(setup_base_orchestrator + execute_linting_on_paths after chdir). A case (= one invocation) is "
                 "non-trivial when at least one targeted file has a finding of the command's rule in its text; distinct = distinct "
                 "(project, location, cwd, spelling, targets, command). Plus unit-level cases for project-root detection (marker layouts).")
     chk.trusted_base += [
@@ -486,6 +553,12 @@ def run(tier: str, seed: int, replay: str | None = None) -> int:
     t0 = _t.time()
     chk.build(["theories/Props/C09.v"], ["PathLocGen"], known_v=["theories/Props/C09Known.v"])
     phases = {"build": round(_t.time() - t0, 1)}
+    # the flags claimed `true` for the current tree must be exactly the listed known findings (a finding cannot be hidden by flipping a flag)
+    import re as _re
+    actual_txt = (coq.TH / "Actual" / "PathLocActual.v").read_text()
+    on = set(_re.findall(r"(q_[a-z_]+)\s*:=\s*true", actual_txt))
+    if _re.findall(r"(q_[a-z_]+)\s*:=", actual_txt) and on != set(chk.known["known"]):
+        chk.broken.append(f"Actual:flags claimed true {sorted(on)} differ from the known findings {sorted(chk.known['known'])}")
     # larger budget when a proof / Gen obligation broke or the hand-modelled code of THIS property changed
     from translator import items_pathloc
     mine = [k for k in chk.fingerprint_changed if any(k.startswith(rel + "::") for rel, _ in items_pathloc.FINGERPRINTS)]
@@ -495,8 +568,8 @@ def run(tier: str, seed: int, replay: str | None = None) -> int:
         groups = [payload["group"]]
         root_cases = []
     else:
-        n_projects, n_special, n_inv = (8, 3, 6) if tier == "quick" else (40, 7, 9)
-        groups = corpus_groups() + gen_groups(seed, n_projects * scale, n_special, n_inv)
+        n_projects, n_special, n_inv, n_matrix = (8, 2, 6, 2) if tier == "quick" else (24, 7, 9, 20)
+        groups = corpus_groups() + gen_groups(seed, n_projects * scale, n_special, n_inv) + gen_matrix(seed, n_matrix * scale)
         root_cases = gen_root_cases(seed, (150 if tier == "quick" else 1500) * scale)
     t0 = _t.time()
     results = pool_map(run_group, groups, procs=8, chunks=1)
@@ -545,15 +618,19 @@ def run(tier: str, seed: int, replay: str | None = None) -> int:
         nontrivial = any(f["raw"] for f in rec["files"])
         chk.count(case_key, nontrivial)
         chk.dist("cmd:" + inv["cmd"])
+        chk.dist("via:" + g.get("via", "cli"))
         chk.dist(f"spelling:{inv['spelling']}/{inv['target']} from {inv['cwd']}")
         for pn in g["loc"]["parents"] + [g["loc"]["name"]]:
             chk.dist("parent:" + pn)
         chk.sample({"location": g["loc"], "cwd": inv["cwd"], "targets": rec["targets"], "cmd": inv["cmd"],
                     "files": [{"rel": "/".join(f["rel"]), "raw": f["raw"], "impl": f["impl"]} for f in rec["files"]],
                     "root_patterns": g["project"]["root_pats"], "linter_ignore": g["project"]["lint_ign"].get(inv["cmd"])}, 4)
-        payload = {"group": {"id": g["id"], "project": g["project"], "loc": g["loc"], "invs": [inv]}, "observed": rec}
+        payload = {"group": {"id": g["id"], "via": g.get("via", "cli"), "project": g["project"], "loc": g["loc"], "invs": [inv]}, "observed": rec}
         if rec["error"]:
             chk.violation({"reason": "CLI run failed", "detail": rec["error"], **payload})
+            continue
+        if rec.get("swallowed"):
+            chk.violation({"reason": "a rule failed internally (swallowed exception) during the run", "detail": rec["swallowed"], **payload})
             continue
         if rec["unknown"]:
             chk.violation({"reason": "the CLI reported a violation for an unexpected file / rule", "detail": rec["unknown"][:5], **payload})
